@@ -388,7 +388,27 @@ def C12(tier):
                 trusted=["doubled-rank projection of the edges relative to the data values"])
 
 
-PLANS = {"C11": C11, "C13": C13, "C12": C12, "C05": C05, "C14": C14, "C15": C15, "C02": C02, "C16": C16, "C04": C04, "C01": C01, "C18": C18, "C19": C19, "C03": C03}
+def C17(tier):
+    models = [
+        dict(module="Errors", name="MC_Errors", cfg=dict(constants=dict(Emit=False), invariants=["ErrOK"])),
+        dict(module="Errors", name="MC_Errors_emit", emit=True, cfg=dict(constants=dict(Emit=True), invariants=["ErrOK", "EmitInv"])),
+    ]
+    stages = [
+        dict(name="table", family="err", trace="Trace_Err", trace_spec="TSpec", trace_constants=dict(Emit=False), profile="dev",
+             cases_from=["MC_Errors_emit"]),
+        dict(name="random_rows", family="err", trace="Trace_Err", trace_spec="TSpec", trace_constants=dict(Emit=False), profile="dev",
+             gen=dict(count=(400, 4000))),
+    ]
+    return dict(models=models, stages=stages, nontrivial=lambda o: o.get("out") != "ok", exhaustive=True,
+                rule="every row of the decision table enumerated by TLC (routine class x receiver shape incl. empty-by-a-zero-axis x argument shape: "
+                     "same / same size different shape / different / empty x axis x weights length x validity pattern of up to 3 requested q) executed "
+                     "by every routine of the class (40+ routines, f64 / i32 / i64 / N64 variants, C and F order, second operand in the other order); "
+                     "random rows with ranks to 4; variant and payload (both shapes, index of the offending q) judged by TLC; non-trivial = error rows",
+                assumptions=["the classification of routines into classes (module Errors, header comment) is part of the specification"],
+                trusted=["mapping of error values to (variant, payload) records in the harness"])
+
+
+PLANS = {"C17": C17, "C11": C11, "C13": C13, "C12": C12, "C05": C05, "C14": C14, "C15": C15, "C02": C02, "C16": C16, "C04": C04, "C01": C01, "C18": C18, "C19": C19, "C03": C03}
 
 HOOK_COMMITS = ["6df096f"]
 
